@@ -8,7 +8,8 @@ Verdict-level model of `(*Schema).visitJSON` (openapi3/schema.go), default setti
                           `arrOK`, `objOK`, `visitItems`, `visitProps`
 A verdict is `true` (nil error) or `false` (an error is returned). After the repairs recorded in
 known_findings.json no panic site is left in these functions for resolved schemas.
-Not modelled here: the request/response readings (asreq/asrep), NaN/Inf inputs.
+The request/response readings (VisitAsRequest / VisitAsResponse, with their switch-off options) are fields of `env`;
+default injection (DefaultsSet) and NaN/Inf inputs are not modelled here.
 -/
 import KinModel.Schema.Schema
 namespace KinModel.Schema
@@ -64,24 +65,38 @@ def arrOK (kw : Kw) (xs : List J) : Bool :=
   (match kw.maxItems with | none => true | some m => decide (xs.length ≤ m)) &&
   (!kw.uniqueItems || uniqueB xs)
 
-def objOK (kw : Kw) (kvs : List (String × J)) : Bool :=
+/-- read as a request a readOnly property, read as a response a writeOnly property, must be absent
+(`reqRO` / `repWO` of visitJSONObject) -/
+def forbidden (env : Env) (s : S) : Bool :=
+  (env.asreq && s.kw.readOnly && !env.roOff) || (env.asrep && s.kw.writeOnly && !env.woOff)
+/-- … and need not be present even if required (the exemption does not look at the switch-off options) -/
+def exempt (env : Env) (s : S) : Bool := (env.asreq && s.kw.readOnly) || (env.asrep && s.kw.writeOnly)
+
+def roBad (env : Env) (p : List (String × S)) (kvs : List (String × J)) : Bool :=
+  p.any (fun ks => forbidden env ks.2 && (lookup ks.1 kvs).isSome)
+
+def reqOK (env : Env) (p : List (String × S)) (kvs : List (String × J)) (k : String) : Bool :=
+  (lookup k kvs).isSome || (match lookup k p with | some s => exempt env s | none => false)
+
+def objOK (env : Env) (kw : Kw) (p : List (String × S)) (kvs : List (String × J)) : Bool :=
   kw.permits "object" &&
+  !roBad env p kvs &&
   (kw.minProps == 0 || decide (kw.minProps ≤ kvs.length)) &&
   (match kw.maxProps with | none => true | some m => decide (kvs.length ≤ m)) &&
-  kw.required.all (fun k => (lookup k kvs).isSome)
+  kw.required.all (reqOK env p kvs)
 
 /-- own keywords of a non-null value, given the verdict of the children (items / properties) -/
-def ownOK (env : Env) (kw : Kw) (v : J) (rChild : Bool) : Bool :=
+def ownOK (env : Env) (kw : Kw) (p : List (String × S)) (v : J) (rChild : Bool) : Bool :=
   match v with
   | .null => false                       -- visitJSONNull; PermitsNull was handled first
   | .bool _ => kw.permits "boolean"
   | .num q => numOK kw q
   | .str s => strOK env kw s
   | .arr xs => arrOK kw xs && rChild
-  | .obj kvs => objOK kw kvs && rChild
+  | .obj kvs => objOK env kw p kvs && rChild
 
 /-- non-recursive combination of the results of the recursive calls, in the code's order -/
-def combine (env : Env) (kw : Kw) (a b c : List S) (shortcut : Bool) (v : J)
+def combine (env : Env) (kw : Kw) (a b c : List S) (p : List (String × S)) (shortcut : Bool) (v : J)
     (rNot : Bool) (rCount : Nat) (rAny rAll rChild : Bool) : Bool :=
   if v.isNull && kw.permitsNull then true else
   if shortcut then !v.isNull else
@@ -90,7 +105,7 @@ def combine (env : Env) (kw : Kw) (a b c : List S) (shortcut : Bool) (v : J)
   (b.isEmpty || rAny) &&
   rAll &&
   (if v.isNull && (!c.isEmpty || !b.isEmpty || !a.isEmpty) then true   -- run = false
-   else enumOK kw v && ownOK env kw v rChild)
+   else enumOK kw v && ownOK env kw p v rChild)
 
 /-- a property of the value: declared property, else additionalProperties -/
 def propRes (has : Option Bool) (rProp rAdd : Option Bool) : Bool :=
@@ -101,7 +116,7 @@ def propRes (has : Option Bool) (rProp rAdd : Option Bool) : Bool :=
 mutual
 def visit (env : Env) : S → J → Bool
   | .mk kw a b c n i p ad, v =>
-    combine env kw a b c (S.mk kw a b c n i p ad).shortcut v
+    combine env kw a b c p (S.mk kw a b c n i p ad).shortcut v
       (match n with | none => true | some s => !visit env s v)
       (countOK env (discCheck kw v).ref c v) (visitAny env b v) (visitAll env a v)
       (match v with
